@@ -478,10 +478,33 @@ def check_ordering(chk, repo):
                 if isinstance(tl, ast.Constant) and tl.value in ("bb_input", "bb_output"):
                     pin_idx.append(i)
     if reg_idx is None or not pin_idx:
-        raise AnalysisError("add_blackbox: registry write or pin creation not found", FILE, fi.node.lineno)
-    chk.ob("C07.O.registry-after-pins", "Circuit.add_blackbox::registry entry written before its pins exist", reg_idx > max(pin_idx), file=FILE, func="Circuit.add_blackbox", line=body[reg_idx].lineno,
+        chk.note("C07.O.registry-after-pins: `self.blackboxes[name] = ...` / pin-creating adds not recognised in add_blackbox; the structural rule abstains (C07.R decides the behaviour)")
+    else:
+      chk.ob("C07.O.registry-after-pins", "Circuit.add_blackbox::registry entry written before its pins exist", reg_idx > max(pin_idx), file=FILE, func="Circuit.add_blackbox", line=body[reg_idx].lineno,
            fact={"registry_write_statement_index": reg_idx, "pin_creation_statement_indices": pin_idx},
            expect="self.blackboxes[name] = ... after the loops that create the pin nodes (pin creation can raise: bad instance name, existing node)")
+    # C07.R (evaluation): a rejected add_blackbox leaves no recorded instance without its pins
+    from ..pkgenv import Package
+    from ..refmodel import RefBlackBox, build
+
+    P = Package(repo)
+    for label, inst, prep in (("instance name starts with a digit", "0bad", None), ("a pin node already exists", "u9", "u9.q"), ("pin listed as input and output", "u8", "dup")):
+        c = build({"a": ("input", []), "o": ("buf", [])}, outputs=["o"])
+        bb = RefBlackBox("ff", ["d", "q"] if prep == "dup" else ["d"], ["q"])
+        if prep and prep != "dup":
+            c.graph.add_node(prep, type="buf", output=False)
+        r = P.call_method(FILE, "Circuit.add_blackbox", c, bb, inst, {"d": "a"})
+        prob = None
+        if r[0] != "raise" or r[1] != "ValueError":
+            prob = {"problem": "not rejected with ValueError", "result": str(r)[:100]}
+        elif inst in c.blackboxes:
+            pins = [f"{inst}.{p}" for p in bb.io()]
+            missing = [p for p in pins if p not in c or c.type(p) not in ("bb_input", "bb_output")]
+            bad_type = [p for p in pins if p in c and ((p.split(".")[-1] in bb.inputs() and c.type(p) != "bb_input") and (p.split(".")[-1] in bb.outputs() and c.type(p) != "bb_output"))]
+            if missing or prep == "dup":
+                prob = {"problem": "instance recorded although its pins are missing / mistyped", "missing_or_mistyped": missing}
+        chk.ob("C07.R.rejected-blackbox-not-recorded", f"add_blackbox::{label}", prob is None, file=FILE, func="Circuit.add_blackbox", line=fi.node.lineno, fact=prob or {},
+               expect="ValueError and no recorded instance lacking its pin nodes")
     # pin types
     for n in walk_no_nested(fi.node):
         if isinstance(n, ast.For):
@@ -514,3 +537,6 @@ def run(chk):
     check_set_type(chk, repo, voc)
     check_who_may_mutate(chk, repo)
     check_ordering(chk, repo)
+    from ..history import history_rule
+
+    history_rule(chk, "C07.H")
